@@ -12,6 +12,6 @@ CONSTANTS
   Users <- UsersU
   Pieces <- PiecesAll
   PwMax = 3
-  Design = "current"
+  Design = "fix"
 INVARIANTS GShape GMarkers GValues MExplained MEffective MNoClause
 CHECK_DEADLOCK FALSE
